@@ -28,6 +28,10 @@ enum Kind {
     PeerList,
     Obj,
     Num,
+    /// the scalar rendering of a stream map (`canon peer %m x`): an object keyed by the map's keys
+    MapObj,
+    /// a {key, value} pair (iterator of a fold over a stream map)
+    KV,
 }
 
 #[derive(Clone, Default)]
@@ -139,6 +143,15 @@ impl<'a> Gen<'a> {
                 Kind::Arr1 => {
                     cands.push(varl(n, vec![Lens::Idx { v: 0 }]));
                 }
+                Kind::MapObj => {
+                    cands.push(var(n));
+                    cands.push(varl(n, vec![Lens::Field { v: "k1".into() }]));
+                    cands.push(varl(n, vec![Lens::Field { v: "k1".into() }]));
+                }
+                Kind::KV => {
+                    cands.push(varl(n, vec![Lens::Field { v: "key".into() }]));
+                    cands.push(varl(n, vec![Lens::Field { v: "value".into() }]));
+                }
                 Kind::Obj => {
                     cands.push(varl(n, vec![Lens::Field { v: "a".into() }]));
                     cands.push(varl(n, vec![Lens::Field { v: "b".into() }, Lens::Idx { v: 0 }]));
@@ -146,9 +159,13 @@ impl<'a> Gen<'a> {
                 _ => {}
             }
         }
-        for (n, _) in &env.iters {
+        for (n, k) in &env.iters {
             cands.push(var(n));
             cands.push(var(n));
+            if *k == Kind::KV {
+                cands.push(varl(n, vec![Lens::Field { v: "key".into() }]));
+                cands.push(varl(n, vec![Lens::Field { v: "value".into() }]));
+            }
         }
         if self.streams_on() {
             for c in &env.canons {
@@ -159,7 +176,11 @@ impl<'a> Gen<'a> {
             }
             if self.profile == Profile::Full {
                 for c in &env.canonmaps {
-                    cands.push(var(c));
+                    for _ in 0..3 {
+                        cands.push(var(c));
+                        cands.push(varl(c, vec![Lens::Field { v: "k1".into() }]));
+                        cands.push(varl(c, vec![Lens::Field { v: "k2".into() }]));
+                    }
                 }
             }
         }
@@ -298,6 +319,22 @@ impl<'a> Gen<'a> {
             let p = self.pick_peer(env);
             e.canons.push(c.clone());
             return (Instr::Canon { peer: p, s, c }, e);
+        }
+        if self.profile == Profile::Full && r < 98 && !e.maps.is_empty() && self.chance(0.45) {
+            // canon of a stream map: into a canon map, or rendered into a scalar
+            let m = e.maps.choose(self.rng).cloned().unwrap();
+            let p = self.pick_peer(env);
+            if self.chance(0.5) {
+                let c = format!("#{}c{}", m, {
+                    self.scount += 1;
+                    self.scount
+                });
+                e.canonmaps.push(c.clone());
+                return (Instr::Canon { peer: p, s: m, c }, e);
+            }
+            let x = self.xname();
+            e.scalars.push((x.clone(), Kind::MapObj));
+            return (Instr::Canon { peer: p, s: m, c: x }, e);
         }
         if self.profile == Profile::Full && r < 99 {
             // stream map insert
@@ -438,21 +475,30 @@ impl<'a> Gen<'a> {
         if r < 90 && self.streams_on() {
             // fold over a stream / canon stream
             let over_canon = !env.canons.is_empty() && self.chance(0.4);
-            let src = if over_canon { env.canons.choose(self.rng).cloned() } else { env.streams.choose(self.rng).cloned() };
+            let over_map = self.profile == Profile::Full && !env.maps.is_empty() && self.chance(0.3);
+            let src = if over_map {
+                env.maps.choose(self.rng).cloned()
+            } else if over_canon {
+                env.canons.choose(self.rng).cloned()
+            } else {
+                env.streams.choose(self.rng).cloned()
+            };
+            let over_canon = over_canon && !over_map;
             if let Some(s) = src {
                 let it = {
                     self.xcount += 1;
                     format!("i{}", self.xcount)
                 };
                 let mut eb = env.clone();
-                eb.iters.push((it.clone(), Kind::Arr));
+                eb.iters.push((it.clone(), if over_map { Kind::KV } else { Kind::Arr }));
                 eb.in_fold = true;
                 // no unguarded append to the stream being folded over (a self-feeding fold only ends at the 1024 cap)
                 if !over_canon {
                     eb.streams.retain(|x| x != &s);
+                    eb.maps.retain(|x| x != &s);
                 }
                 let (mut body, _) = self.gen_instr(depth.saturating_sub(2), &eb);
-                if !over_canon && self.chance(0.3) {
+                if !over_canon && !over_map && self.chance(0.3) {
                     // bounded recursion: elements whose head matches get one more append
                     let f = self.fname(&s);
                     let p = self.pick_peer(env);
@@ -481,6 +527,15 @@ impl<'a> Gen<'a> {
                 // canons of the outer stream are not visible for the inner one: keep them (they are scalars-like)
                 let (body, _) = self.gen_instr(depth - 1, &eb);
                 return (Instr::New { n: s, i: Box::new(body) }, env.clone());
+            }
+            if self.profile == Profile::Full && self.chance(0.25) {
+                let m = if !env.maps.is_empty() && self.chance(0.5) { env.maps.choose(self.rng).cloned().unwrap() } else { self.sname("%") };
+                let mut eb = env.clone();
+                if !eb.maps.contains(&m) {
+                    eb.maps.push(m.clone());
+                }
+                let (body, _) = self.gen_instr(depth - 1, &eb);
+                return (Instr::New { n: m, i: Box::new(body) }, env.clone());
             }
             let x = self.xname();
             let (body, _) = self.gen_instr(depth - 1, env);
